@@ -228,7 +228,8 @@ def shrink(desc):
     arguments, truncate the decision list, turn single switches into 'stay'."""
     from sim import kernel
     if desc["sched"]["policy"] != "replay":
-        res = kernel.execute_desc(sys.modules[__name__], desc)
+        kernel._CHECK = sys.modules[__name__]
+        res = kernel.run_isolated(kernel._exec_desc, desc, 60)
         d = dict(desc)
         d["sched"] = {"policy": "replay", "decisions": res["decisions"]}
         yield d
